@@ -222,8 +222,8 @@ fn main() {
 
 prog("pointer_to_member_args", """
 struct S { a: i32, b: vec3<i32>, c: array<i32, 3> }
-fn inc(p: ptr<function, i32>) { *p += 1; }
-fn addv(p: ptr<function, vec3<i32>>, k: i32) { (*p).y += k; (*p).z = (*p).x; }
+fn inc(p: ptr<function, i32>) { *p = *p + 1; }
+fn addv(p: ptr<function, vec3<i32>>, k: i32) { (*p).y = (*p).y + k; (*p).z = (*p).x; }
 fn fill(p: ptr<function, array<i32, 3>>, k: i32) { for (var i = 0; i < 3; i++) { (*p)[i] = k + i; } }
 @compute @workgroup_size(1)
 fn main() {
@@ -330,8 +330,8 @@ fn main() {
   let nz = select(b, 3, b == 0 || b == -1);
   let sh = iu[0] & 31u;
   oi[0] = a + b; oi[1] = a - b; oi[2] = a * b;
-  oi[3] = abs(a % 100) / abs(nz);
-  oi[4] = abs(a % 1000) % abs(nz);
+  oi[3] = (a & 0xffff) / abs(nz);
+  oi[4] = (a & 0xffff) % max(abs(nz), 1);
   oi[5] = a & b; oi[6] = a | b; oi[7] = a ^ b;
   ou[0] = u32(a << sh); ou[1] = u32(a >> sh); ou[2] = u32(~a); ou[3] = u32(-a);
   ou[4] = select(0u, 1u, a < b) | select(0u, 2u, a <= b) | select(0u, 4u, a > b) | select(0u, 8u, a >= b)
@@ -451,7 +451,7 @@ fn main() {
 """, ("small", "boundary"))
 
 prog("logical_short_circuit", """
-fn side(p: ptr<function, u32>, r: bool) -> bool { *p += 1u; return r; }
+fn side(p: ptr<function, u32>, r: bool) -> bool { *p = *p + 1u; return r; }
 @compute @workgroup_size(1)
 fn main() {
   var calls = 0u;
@@ -528,7 +528,8 @@ fn main() {
   atomicMax(&c.low, ii[0]);
   let m = atomicMin(&c.low, ii[1]);
   let x = atomicXor(&c.hits, 0xffu);
-  atomicStore(&wc, iu[1]);
+  let init = iu[1];
+  atomicStore(&wc, init);
   let a = atomicAnd(&wc, iu[2]);
   let o = atomicOr(&wc, 1u);
   let e = atomicExchange(&wc, 9u);
@@ -602,7 +603,7 @@ fn main() {
   let r3 = m.b * v3; of_[4] = r3.x + r3.y * 2.0 + r3.z * 4.0;
   let r43 = m.c * v4; of_[5] = r43.x + r43.y + r43.z;
   let r24 = m.d * v2; of_[6] = r24.x + r24.w;
-  let sq = m.a * m.a; let sc = m.a * 2.0; let ad = m.a + sq - sc;
+  let two = if_[1] * 0.0 + 2.0; let sq = m.a * m.a; let sc = m.a * two; let ad = m.a + sq - sc;
   m.a = ad;
   m.b[1] = v3; m.b[2][0] = if_[0];
   var loc = mat2x2<f32>(v2, vec2<f32>(1.0, 2.0));
@@ -629,14 +630,15 @@ fn main() {
 
 prog("glsl_reserved_names", """
 struct input { sample: i32, texture: i32 }
-fn mix(a: i32, b: i32) -> i32 { return a * 2 + b; }
+fn mod(a: i32, b: i32) -> i32 { return a * 2 + b; }
+fn lessThan(a: i32) -> i32 { return a + 7; }
 fn abs_(x: i32) -> i32 { return x + 1; }
 fn main_(x: i32) -> i32 { return x - 1; }
 @compute @workgroup_size(1)
 fn main() {
   var sample = ii[0];
   let uint = ii[1];
-  var vec3_ = mix(sample, uint);
+  var vec3_ = mod(sample, uint) + lessThan(uint);
   var common: input;
   common.sample = abs_(vec3_); common.texture = main_(uint);
   let out = common.sample + common.texture;
@@ -650,7 +652,7 @@ prog("while_complex_conditions", """
 @compute @workgroup_size(1)
 fn main() {
   var i = 0u; var s = 0;
-  while (i < 8u && s < 20) { s += abs(ii[i] % 7); i++; }
+  while (i < 8u && s < 20) { s += (ii[i] & 0xff) % 7; i++; }
   oi[0] = s; ou[0] = i;
   var j = 0u;
   while (true) { if (j >= 3u) { break; } j += 1u; loop { if (j > 1u) { break; } j += 2u; } }
@@ -666,6 +668,13 @@ fn main() {
   let r = select(a, b, a < b);
   oi[0] = r.x; oi[1] = r.y; oi[2] = r.z;
 }
+""", ("small",))
+
+prog("finding_matrix_times_abstract_scalar", """
+struct M { a: mat2x2<f32> }
+@group(1) @binding(0) var<storage, read_write> m: M;
+@compute @workgroup_size(1)
+fn main() { let sc = m.a * 2.0; m.a = sc; }
 """, ("small",))
 
 prog("finding_abs_u32", """
